@@ -402,10 +402,16 @@ theorem cache_safe (es : List Ev) (k : Key)
 theorem never_accepted_after_key_change (r k : Key) (h : keyValid r k = true) :
     r.uuid = k.uuid ∧ r.partition = k.partition ∧ r.mode = k.mode ∧ r.select = k.select ∧
     r.disable = k.disable ∧ r.define = k.define ∧ r.builders.isSuperset k.builders = true ∧
-    r.apps.isSuperset k.apps = true ∧ k.namesKnown = true := by
+    r.apps.isSuperset k.apps = true ∧ k.namesKnown = true ∧
+    (k.partition ≠ none → k.builders.isSuperset r.builders = true ∧ k.apps.isSuperset r.apps = true) := by
   simp only [keyValid, Bool.and_eq_true, beq_iff_eq] at h
-  obtain ⟨⟨⟨⟨⟨⟨⟨⟨h1, h2⟩, h3⟩, h4⟩, h5⟩, h6⟩, h7⟩, h8⟩, h9⟩ := h
-  exact ⟨h1, h2, h5, h6, h7, h8, h3, h4, h9⟩
+  obtain ⟨⟨⟨⟨⟨⟨⟨⟨⟨h1, h2⟩, h3⟩, h4⟩, h5⟩, h6⟩, h7⟩, h8⟩, h9⟩, h10⟩ := h
+  refine ⟨h1, h2, h5, h6, h7, h8, h3, h4, h9, ?_⟩
+  intro hp
+  simp only [partitionOk, Selector.sameSet, Bool.or_eq_true, Bool.and_eq_true, Option.isNone_iff_eq_none] at h10
+  rcases h10 with h10 | h10
+  · exact absurd h10 hp
+  · exact ⟨h10.1.2, h10.2.2⟩
 
 /-- a request naming a builder/app the project does not have is never served from the cache -/
 theorem unknown_names_never_hit (s : State) (k : Key) (h : k.namesKnown = false) : hit s k = false := by
@@ -435,7 +441,7 @@ theorem Selector.isSuperset_refl (a : Selector) : a.isSuperset a = true := by
   | some l => simp [Selector.isSuperset]
 
 theorem keyValid_self_iff (k : Key) : keyValid k k = true ↔ k.namesKnown = true := by
-  simp [keyValid, Selector.isSuperset_refl]
+  simp [keyValid, partitionOk, Selector.sameSet, Selector.isSuperset_refl]
 
 theorem keyValid_refl (k : Key) (hk : k.namesKnown = true) : keyValid k k = true :=
   (keyValid_self_iff k).2 hk
